@@ -110,7 +110,9 @@ def check_C01(tier, seed):
     agg = merge_agg(agg, catcheck.explore(w, rep, lcases, "C01", r"Harness_C01$", 5 if tier == "quick" else 6, tmo, "ref", seed=seed, validate_pkgs=3 if tier == "quick" else 10))
     run_lemmas(w, rep, "C01", ["Seq", "Choice", "And", "Not", "Star", "Plus", "Opt", "Label"], 1 if tier == "quick" else 2)
     # terminals have no children to choose: a longer input is cheap (the literal of the lemma is 3 bytes long)
-    run_lemmas(w, rep, "C01", ["Any", "Lit", "Class"], 3 if tier == "quick" else 4, key="lemma_obligations_terminals")
+    run_lemmas(w, rep, "C01", ["Any", "Class"], 2 if tier == "quick" else 4, tmo=300 if tier == "quick" else 1800, key="lemma_obligations_terminals")
+    # (the literals of the lemma are 3 and 4 bytes long)
+    run_lemmas(w, rep, "C01", ["Lit"], 3 if tier == "quick" else 4, tmo=300 if tier == "quick" else 1800, key="lemma_obligations_literal")
     twin = run_engine(w, pkgs="./" + cases[-1].harness_rel, harness="Harness_TWIN$", nmin=1, nmax=1, timeout_s=60)
     tw = sum(len(j.get("counterexamples") or []) for j in twin.get("jobs") or [])
     if tw == 0:
@@ -202,6 +204,15 @@ def check_C15(tier, seed):
     agg = catcheck.explore(w, rep, cases[:-1], "C15", r"Harness_C15$", N, tmo, "rel", seed=seed,
                            validate_pkgs=6 if tier == "quick" else 20)
     twin_check(w, rep, cases[-1])
+    # kernel: every Unicode class name the front end accepts, with and without i, against package unicode on a symbolic rune
+    names = unicode_class_names() + list("LMNCPZS")
+    ksrc = "package builder\n\nvar c15Classes = []string{%s}\n" % ", ".join(go_str_lit(x) for x in names)
+    ovk = RepoOverlay(w, "builder", "builder", {"zz_verif_c15.go": open(os.path.join(VERIF, "harness", "c15_builder.go")).read(), "zz_verif_c15data.go": ksrc}, ["Harness_C15kernel"])
+    aggk = overlay_explore(rep, "C15", ovk, "Harness_C15kernel$", 0, 2 * len(names) - 1, 120, "c15_kernel", sample_every=37, max_triage=4)
+    aggk.pop("_samples", None)
+    rep.cov["kernel"] = {"unicode_classes": len(names), "jobs": aggk["jobs"], "paths": aggk["paths"], "queries": aggk["queries"], "assertions_checked": aggk["asserts"],
+                         "assertions_discharged": aggk["discharged"], "counterexamples": aggk["cex"],
+                         "note": "BasicLatinLookup(nil, nil, [class], i)[cur] == unicode.Is(table of package unicode, lower(cur) under i) for a symbolic cur in [0,128)"}
     std_cov(rep, agg, cases, {"input_bytes_max": N, "alphabet": "all 256 byte values (all runes, surrogates, overlongs, stray continuation bytes)",
                               "classes": len(cat), "random_classes": "seeded sample (seed %d) over boundary runes, ranges and Unicode classes" % seed},
             "one state = one explored path (class of inputs on which both real parsers take the same decisions)",
@@ -272,7 +283,8 @@ def check_C02(tier, seed):
 
 
 def check_C05(tier, seed):
-    return run_ref_property("C05", tier, seed, cores.state_catalogue(), ["C05"], 4, 5, flagsets_q=("std", "opt"), quick_stride=1, tq=120, tt=1800, lemmas=["Seq", "Choice", "And", "Not", "Action", "Star", "Opt", "AndCode", "NotCode", "StateCode"], rnd=(16, 200, ("state",)))
+    return run_ref_property("C05", tier, seed, cores.state_catalogue(), ["C05"], 4, 5, flagsets_q=("std", "opt"), quick_stride=1, tq=120, tt=1800, lemmas=["Seq", "Choice", "And", "Not", "Action", "Star", "Opt", "AndCode", "NotCode", "StateCode"], rnd=(16, 200, ("state",)),
+                            extra=[(g, fs) for g in cores.state_lr_catalogue() for fs in ("lr", "lropt")])
 
 
 def check_C14(tier, seed):
@@ -352,7 +364,8 @@ def check_C09(tier, seed):
 
 
 def check_C08(tier, seed):
-    return run_ref_property("C08", tier, seed, cores.lr_catalogue() + cores.random_lr(seed, 10 if tier == "quick" else 80), ["C08"], 5, 7, tq=120, tt=1800,
+    st_lr = [g for g in cores.state_lr_catalogue() if g["name"] != "stlr_twice"]  # (the witness of finding F21 belongs to C05)
+    return run_ref_property("C08", tier, seed, cores.lr_catalogue() + st_lr + cores.random_lr(seed, 10 if tier == "quick" else 80), ["C08"], 5, 7, tq=120, tt=1800,
                             flagsets_q=("lr", "lropt"), flagsets_t=("lr", "lropt"),
                             bounds_extra={"Memoize": "symbolic (non-optimized parsers)"},
                             assumptions=["left-recursive rules of the form A <- A a1/.../A an/b1/.../bm, entered through the leader"])
@@ -530,10 +543,10 @@ def check_C07(tier, seed):
     quick = tier == "quick"
     # (a) analysis vs. reflr over the lazily chosen family (harness inside package builder)
     ov = RepoOverlay(w, "builder", "builder", {"zz_verif_c07.go": open(os.path.join(VERIF, "harness", "c07a_builder.go")).read()}, ["Harness_C07a"])
-    menu = 38
+    menu = 47
     if quick:
         rnd = random.Random(seed)
-        pick = sorted(set([0, 1, 4, 6, 8, 33, 35, 37] + rnd.sample(range(menu), 2)))
+        pick = sorted(set([0, 1, 4, 6, 8, 33, 35, 37, 43, 45, 46] + rnd.sample(range(menu), 1)))
     else:
         pick = list(range(menu))
     agg_a = overlay_explore(rep, "C07", ov, "Harness_C07a$", min(pick), max(pick), 300 if quick else 1200, "c07a_family",
@@ -557,7 +570,7 @@ def check_C07(tier, seed):
     # with the flag every cyclic grammar must be accepted or rejected with the leader error, never crash
     agg = merge_agg(agg_a, agg_b)
     std_cov(rep, agg, cases_b + cases_ok,
-            {"family": "2 rules x 2 lazily chosen slots from a menu of 38 (4 terminals + 17 operator shapes x 2 referenced rules) + a fixed nullable rule and a fixed throwing rule; first slot of rule A = job argument (%d of 38 in this tier)" % len(pick),
+            {"family": "2 rules x 2 lazily chosen slots from a menu of 47 (4 terminals + 21 operator shapes x 2 referenced rules + a reference to the fixed throwing rule) + a fixed nullable rule and a fixed throwing rule; first slot of rule A = job argument (%d of 47 in this tier)" % len(pick),
              "runtime_monitor": "input <= %d bytes on %d accepted grammars" % (2 if quick else 3, len(run_b)),
              "cyclic_catalogue": "%d grammars with a first-call cycle: %d rejected without the flag, %d accepted" % (len(cyc), len(rejected_cyclic), len(accepted_cyclic))},
             "(a) one state = one lazily completed grammar prefix (all completions of untouched slots at once), compared with the syntactic reference reflr; (b) one state = one input class of a generated parser under the re-entry monitor",
@@ -597,6 +610,9 @@ def c19_grammars(quick, seed=0):
     out.append(("opt_entry", hdr + "S <- A B\nA <- ('a' / 'b') { return 1, nil }\nB <- 'c' A?\nX <- 'x' A\nY <- X B\n", dict(optGrammar=True, altEntry=["A", "X"])))
     # merged classes with duplicated members of every kind (characters, ranges, Unicode classes)
     out.append(("opt_class_dups", hdr + "S <- (I / [\\p{Nd}\\p{Ll}\\p{Mn}0-9a])+ J\nI <- [\\p{Lu}\\p{Ll}a-fxy] / [_\\p{Lt}\\p{Lu}a-fyz]\nJ <- [a-c]i / [b-d]i / 'q'i / [\\p{Lu}q]i\n", dict(optGrammar=True)))
+    # a diamond of rule references: B becomes inlinable only after its users were visited, A1 uses A2 and B with a
+    # literal in between (the order in which the users are revisited decides the order of the merged class)
+    out.append(("opt_diamond", hdr + "S <- A1+ Hex? Oct? Dec?\nA1 <- A2 / \"x\" / B\nA2 <- \"-\" B / \"y\"\nB <- \"1\" / C\nC <- \"0\"\nHex <- [0-9a-f] C\nOct <- [0-7] C\nDec <- [0-9] B\n", dict(optGrammar=True)))
     # the same left-recursive grammars with every rule on one source line (rules separated by ';')
     for name, text, fl in list(out):
         if fl.get("leftRec") and not name.startswith("lrrnd") and text.startswith(hdr):
@@ -809,7 +825,7 @@ def check_C13(tier, seed):
     ov = RepoOverlay(w, ".", "main", {"zz_verif_main.go": open(os.path.join(VERIF, "harness", "main_common.go")).read(),
                                       "zz_verif_c13.go": open(os.path.join(VERIF, "harness", "c13_main.go")).read(),
                                       "zz_verif_c13m.go": open(os.path.join(VERIF, "harness", "c13main_main.go")).read(),
-                                      "zz_verif_c13data.go": extra}, ["Harness_C13text", "Harness_C13mut", "Harness_C13chain", "Harness_C13code", "Harness_C13main"])
+                                      "zz_verif_c13data.go": extra}, ["Harness_C13text", "Harness_C13mut", "Harness_C13chain", "Harness_C13code", "Harness_C13main", "Harness_C13maintext"])
     N = 3 if quick else 4
     B = 16
     agg1 = overlay_explore(rep, "C13", ov, "Harness_C13text$", 0, (N + 1) * B - 1, 400 if quick else 3000, "c13_text", sample_every=97, max_triage=4)
@@ -840,7 +856,10 @@ def check_C13(tier, seed):
     # the other flags, the entry point list and one appended byte symbolic)
     agg5 = overlay_explore(rep, "C13", ov, "Harness_C13main$", 0, 0, 240 if quick else 900, "c13_main", sample_every=29 if quick else 199, max_triage=4,
                            args=set(c * 8 + b for c in range(6) for b in ((0, 3, 5, 6) if quick else range(8))), max_steps=20_000_000)
-    agg = merge_agg(merge_agg(merge_agg(merge_agg(agg1, agg2 or {}), agg3 or {}), agg4 or {}), agg5 or {})
+    # the whole text symbolic on the standard input of the real main(): <= 2 (3) bytes
+    NM = 2 if quick else 3
+    agg6 = overlay_explore(rep, "C13", ov, "Harness_C13maintext$", 0, (NM + 1) * 16 - 1, 240 if quick else 1800, "c13_maintext", sample_every=53, max_triage=4, max_steps=20_000_000)
+    agg = merge_agg(merge_agg(merge_agg(merge_agg(merge_agg(agg1, agg2 or {}), agg3 or {}), agg4 or {}), agg5 or {}), agg6 or {})
     agg.pop("_samples", None) if False else None
     # cross-check of the harness staging against the real binary: exit status and no panic trace
     nat_ok = 0
@@ -955,7 +974,7 @@ func Harness_C03rt(n int) {
              "zz_verif_dump.go": open(os.path.join(VERIF, "harness", "astdump_main.go")).read(),
              "zz_verif_c03h.go": open(os.path.join(VERIF, "harness", "c03_holes_main.go")).read(),
              "zz_verif_c03.go": "".join(src)}
-    names = ["Harness_C03rt", "Harness_C03layout", "Harness_C03comment", "Harness_C03escape", "Harness_C03class", "Harness_C03op", "Harness_C03ident", "Harness_C03code"]
+    names = ["Harness_C03rt", "Harness_C03layout", "Harness_C03comment", "Harness_C03escape", "Harness_C03class", "Harness_C03op", "Harness_C03ident", "Harness_C03code", "Harness_C03litbody"]
     ov = RepoOverlay(w, ".", "main", files, names)
     agg = overlay_explore(rep, "C03", ov, "Harness_C03rt$", 0, len(rt) - 1, 120, "c03_roundtrip", sample_every=1, max_triage=5, max_steps=20_000_000 if quick else 400_000_000)
     lay_args = [ci * maxseps + si for ci, (_, _, seps, _) in enumerate(lay) for si in range(len(seps))]
@@ -966,6 +985,8 @@ func Harness_C03rt(n int) {
     # double, single, class, class range bound; the 9-byte form (\UXXXXXXXX) only in the two quotings
     esc_args = [q * 16 + n for q in (0, 1, 2, 3) for n in (1, 3, 5)] + ([] if quick else [q * 16 + 9 for q in (0, 1)])
     agg = merge_agg(agg, overlay_explore(rep, "C03", ov, "Harness_C03escape$", 0, 0, tmo if quick else 2400, "c03_escape", sample_every=23, max_triage=3, args=set(esc_args)))
+    lit_args = [8 * q + k for q in (0, 2) for k in range(0, (2 if quick else 3) + 1)] + [8 * 1 + 1]
+    agg = merge_agg(agg, overlay_explore(rep, "C03", ov, "Harness_C03litbody$", 0, 0, tmo, "c03_litbody", sample_every=23, max_triage=3, args=set(lit_args)))
     code_args = [8 * f + k for f in range(6) for k in range(0, (3 if quick else 4) + 1)]
     agg = merge_agg(agg, overlay_explore(rep, "C03", ov, "Harness_C03code$", 0, 0, tmo, "c03_code", sample_every=23, max_triage=3, args=set(code_args)))
     cls_args = list(range(0, (3 if quick else 4) + 1)) + [10 * sh + k for sh in range(1, 9) for k in range(1, (2 if quick else 3) + 1)]
@@ -979,6 +1000,7 @@ func Harness_C03rt(n int) {
                            "class_holes": "class bodies of <= %d symbolic printable ASCII bytes, and <= %d symbolic bytes between 8 concrete prefix/suffix shapes (pending character, complete range, two ranges, leading/trailing dash); ^ and i symbolic" % ((3, 2) if quick else (4, 3)),
                            "random_grammars": "seeded sample (seed %d) added to the round trips" % seed,
                            "code_block_holes": "<= %d symbolic bytes inside a string, raw string, rune literal, line comment, block comment or nested braces of a code block whose tail would unbalance the braces if the hole were delimited wrongly" % (3 if quick else 4),
+                           "literal_bodies": "escape-free bodies of <= %d symbolic ASCII bytes in double quotes and back quotes (raw: carriage returns discarded), one byte in single quotes" % (2 if quick else 3),
                            "operator_holes": "prefix and suffix operator symbolic in a skeleton using all eight binding levels",
                            "identifier_holes": "identifiers of <= %d symbolic ASCII characters" % (2 if quick else 3)},
             "one state = one explored path of the real front end (class of hole contents); the round trip has one path per grammar",
@@ -1073,7 +1095,7 @@ def check_C20(tier, seed):
     agg = merge_agg(agg, overlay_explore(rep, "C20", ov, "Harness_C20escape$", 0, 0, tmo, "c20_escape", sample_every=23, max_triage=3, args=set(esc_args)))
     agg = merge_agg(agg, overlay_explore(rep, "C20", ov, "Harness_C20class$", 0, 3 if quick else 4, tmo, "c20_class", sample_every=23, max_triage=3))
     agg = merge_agg(agg, overlay_explore(rep, "C20", ov, "Harness_C20op$", 0, 0, tmo, "c20_op", sample_every=3, max_triage=3))
-    free_args = [8 * sk + k for sk in range(8) for k in range(1, (2 if quick else 3) + 1)] + [8 * sk + (3 if quick else 4) for sk in (1, 2)]
+    free_args = [8 * sk + k for sk in range(10) for k in range(1, (2 if quick else 3) + 1)] + [8 * sk + (3 if quick else 4) for sk in (1, 2)]
     agg = merge_agg(agg, overlay_explore(rep, "C20", ov, "Harness_C20free$", 0, 0, max(tmo, 300), "c20_free", sample_every=97, max_triage=3, args=set(free_args)))
     agg.pop("_samples", None)
     std_cov(rep, agg, rt, {"catalogue_texts": len(rt), "layout_holes": "%d symbolic layout bytes at %d token boundaries" % (hole_len, len(lay_args)),
@@ -1261,6 +1283,7 @@ def check_C18(tier, seed):
     quick = tier == "quick"
     cat = cores.state_catalogue()[:: (4 if quick else 1)] + cores.composites()[: (3 if quick else 10)] + cores.context_catalogue()[:2] + cores.throw_catalogue()[:2]
     cat = cat + [g for g in cores.throw_catalogue() if g["name"] in ("tr_rcvchoice", "tr_lblshare")]
+    cat = cat + [g for g in cores.composites() if g["name"] in ("c_longclass",) and g not in cat]
     cat = cat + rnd_cat(tier, seed, 4, 40, ("state", "throw"))
     lr = cores.lr_catalogue()[: (1 if quick else 3)]
     rep = Report("C18", tier, seed, "other")
@@ -1325,7 +1348,7 @@ def check_C18(tier, seed):
         nat["timeout"] = timed_out
         return nat
     for c_ in cases:
-        c_.harness_names = ["Harness_C18", "Harness_C18native", "Harness_C18abort", "Harness_C18order", "Harness_C18reader"]
+        c_.harness_names = ["Harness_C18", "Harness_C18native", "Harness_C18abort", "Harness_C18order", "Harness_C18reader", "Harness_C18opts"]
     catcheck.prepare(w, cases)
     # (quick: every second case under the full monitor with a nondeterministic pool - the dearest family)
     agg = catcheck.explore(w, rep, cases[::2] if quick else cases, "C18", r"Harness_C18$", N, tmo, "ref", seed=seed, validate_pkgs=5 if quick else 16, confirm=confirm)
@@ -1339,6 +1362,8 @@ def check_C18(tier, seed):
     if quick:
         rd = rd[:3] + [c_ for c_ in rd if c_.id.startswith("rnd")][:2]
     agg = merge_agg(agg, catcheck.explore(w, rep, rd, "C18", r"Harness_C18reader$", N, tmo, "ref", seed=seed, validate_pkgs=2 if quick else 6, confirm=confirm))
+    # the middle call with every runtime option set to its non-default value
+    agg = merge_agg(agg, catcheck.explore(w, rep, rd, "C18", r"Harness_C18opts$", N, tmo, "ref", seed=seed, validate_pkgs=2 if quick else 6, confirm=confirm))
     # order independence against a fresh process (first-call-wins caches): all cases, no monitor
     agg = merge_agg(agg, catcheck.explore(w, rep, cases, "C18", r"Harness_C18order$", N, tmo, "ref", seed=seed, validate_pkgs=3 if quick else 8, confirm=confirm))
     rep.cov.update({
